@@ -88,3 +88,13 @@ Proof.
   split; [reflexivity|]. split; [reflexivity|]. split; [vm_compute; reflexivity|].
   intros kind [<-|[<-|[<-|[]]]]; split; vm_compute; reflexivity.
 Qed.
+
+(* KEPT FINDING (known_findings.d/C05.json): next(model.iter_periods()) — "the first period of the range" — raises TypeError although
+   iter_periods() returns the four pairs; the clause "next() yields the first (position, label) pair" is REFUTED *)
+Lemma period_iter_next_refuted :
+  exists d (span : list Z) p ps n,
+    iter_periods_M Z (locate_span SpList span) d span None None = Ret (n, p :: ps) /\
+    period_iter_next_M (iter_periods_M Z (locate_span SpList span) d span None None) = Raise TypeError.
+Proof.
+  exists exA_desc, exA_span, (0, 0), [(1, 1); (2, 2); (3, 3)], 4%nat. split; vm_compute; reflexivity.
+Qed.
